@@ -106,16 +106,19 @@ def state_shape_problems():
 # --------------------------------------------------------------------------
 # native build / replay
 # --------------------------------------------------------------------------
-def native_build(workdir, release=False):
+def native_build(workdir, release=False, bin_name="replay"):
     tdir = os.path.join(workdir, "native")
-    cmd = ["cargo", "build", "--offline", "--bin", "replay", "--target-dir", tdir]
+    cmd = ["cargo", "build", "--offline", "--bin", bin_name, "--target-dir", tdir]
+    feats = kf_features(load_known_findings())
+    if feats:
+        cmd += ["--features", ",".join(feats)]
     if release:
         cmd.append("--release")
     p = subprocess.run(cmd, cwd=HARNESS, env=ENV, stdout=subprocess.PIPE, stderr=subprocess.STDOUT, text=True)
     if p.returncode != 0:
         log(p.stdout[-4000:])
         raise RuntimeError("native build failed")
-    return os.path.join(tdir, "release" if release else "debug", "replay")
+    return os.path.join(tdir, "release" if release else "debug", bin_name)
 
 
 def registry(workdir):
@@ -385,7 +388,7 @@ def classify_harness(res, pid, owns_panics):
 # --------------------------------------------------------------------------
 # main check
 # --------------------------------------------------------------------------
-def select(reg, pid, tier, kfs):
+def select(reg, pid, tier, kfs, seed=0):
     """main harnesses + [(finding, [witness harnesses])].  A 'w' harness asserts the property on the
     input class of a finding: claimed by an open finding it is that finding's witness (expected to
     fail with the listed signatures only), otherwise it is an ordinary quick harness."""
@@ -410,10 +413,19 @@ def select(reg, pid, tier, kfs):
             claimed.add(e["name"])
         witness.append((k, es))
     main = []
+    spot = {}
     for e in mine:
         t = e["name"].split("__")[1]
         if t == "q" or (t == "t" and tier == "thorough") or (t == "w" and e["name"] not in claimed):
             main.append(e)
+        elif t == "s":
+            # seed-chosen spot instances: one per group (name without its trailing number)
+            spot.setdefault(re.sub(r"\d+$", "", e["name"]), []).append(e)
+    for grp in sorted(spot):
+        es = spot[grp]
+        main.append(es[seed % len(es)])
+        if tier == "thorough" and len(es) > 1:
+            main.append(es[(seed * 7 + 3) % len(es)])
     return main, witness
 
 
@@ -434,7 +446,7 @@ def do_check(pid, tier, seed, jobs, keep):
     feats = kf_features(kfs)
     problems = state_shape_problems()
     exe, reg = registry(workdir)
-    main, witness = select(reg, pid, tier, kfs)
+    main, witness = select(reg, pid, tier, kfs, seed)
     if not main:
         log("no harness registered for", pid)
         return 2
@@ -684,11 +696,8 @@ def do_setup():
     probs = state_shape_problems()
     for pr in probs:
         log("WARNING: " + pr)
-    if os.path.exists(os.path.join(HARNESS, "src", "bin", "selftest.rs")):
-        p = subprocess.run(["cargo", "run", "--offline", "--bin", "selftest", "--target-dir", os.path.join(workdir, "native")],
-                           cwd=HARNESS, env=ENV)
-        if p.returncode != 0:
-            return 1
+    st = native_build(workdir, bin_name="selftest")
+    p = subprocess.run([st], env=ENV)
     return 0 if p.returncode == 0 else 1
 
 
